@@ -256,7 +256,7 @@ def ml7(model):
 def rp2(model):
     r = RuleResult('RP2', 'replace_phrases applies every rule that has a left-hand side: the only '
                    'skip is the empty-pattern test; the separator & is recognised as a separate '
-                   'word of the split line (not searched as a character)', floor=2)
+                   'word of the split line (not searched as a character)', floor=1)
     f = model.func('utils.replace_phrases')
     loops = [n for n in f.node.body if isinstance(n, ast.For)]
     if not loops:
